@@ -1,5 +1,6 @@
 import Driver.Common
 import UralModel.Model.LruSpec
+import UralModel.Model.LruUrl
 import UralModel.Gen.LruPatterns
 /-! Driver handlers for the LRU model (C12 and C13). -/
 open Lean Ural Ural.Py Ural.Lru
@@ -98,9 +99,45 @@ def pairOp (j : Json) : Json :=
       jbool (labelHost (specHost u.netloc) && labelHost (specHost v.netloc))
     ])
 
+/-- the answer of the real `split_suffix` stored under `key` (`null` or `[domain, suffix]`) -/
+def splitOfKey (j : Json) (key : String) : Str → Option (Str × Str) :=
+  match field j key with
+  | .arr a =>
+    match a.toList with
+    | [.str d, .str s] => fun _ => some (chars d, chars s)
+    | _ => fun _ => none
+  | _ => fun _ => none
+
+def jOptParts (o : Option Parts) : Json :=
+  match o with | some p => jparts p | none => jerr "ValueError"
+
+/-- the string-level pipeline (parser inside the model): `urlsplit(ensure_protocol(u))`,
+`lru_stems(u)`, `url_to_lru(u)`, membership of the class of the string-level theorems,
+`lru_to_url(url_to_lru(u))`, `urlsplit` of that, and `url_to_lru` of that (with the real
+`split_suffix` answer for the round-trip result, shipped as `split_back`) -/
+def lruUrlOp (j : Json) : Json :=
+  let u := chars (fieldStr j "url")
+  let sa := fieldBool j "sa"
+  let sp := splitOfKey j "split"
+  let sp2 := splitOfKey j "split_back"
+  let lru := urlToLru sp sa u
+  let back : Option Str := lru.bind (fun l => (lruToUrlStr l).toOption)
+  Json.mkObj [
+    ("parts", jOptParts (urlParts u)),
+    ("stems", match lruStemsUrl sp sa u with
+      | some st => jlist (st.map jchars) | none => jerr "ValueError"),
+    ("lru", match lru with | some l => jchars l | none => jerr "ValueError"),
+    ("in_class", jbool (inClass sp sa u)),
+    ("back", match back with | some b => jchars b | none => jerr "ValueError"),
+    ("reparse", jOptParts (back.bind reparse)),
+    ("relru", match back.bind (urlToLru sp2 sa) with
+      | some l => jchars l | none => jerr "ValueError")
+  ]
+
 def handle (f : String) (j : Json) : Option Json :=
   match f with
   | "lru" => some (lruOp j)
+  | "lru_url" => some (lruUrlOp j)
   | "lru_stems" => some (stemsOp j)
   | "lru_str" => some (strOp j)
   | "urlunsplit" => some (unsplitOp j)
